@@ -166,7 +166,7 @@ class X12DataNode(object):
         """
         self.children = [x for x in self.children if x.type is not None]
 
-    def _get_insert_idx(self, x12_node):
+    def _get_insert_idx(self, x12_node, same_pos_by_map=False):
         """
         Find the index of self.children before which the x12_node belongs
         Nodes will be inserted after the last node with matching ordinals
@@ -176,6 +176,9 @@ class X12DataNode(object):
         def map_order(node):
             # siblings that share a position keep the order in which the map lists them
             # (the walker expects a required loop before its same-position siblings)
+            # - for a loop added by the caller; the reader keeps the order of the source)
+            if not same_pos_by_map:
+                return (node.pos, 0)
             parent = node.parent
             siblings = parent.pos_map.get(node.pos, []) if parent is not None and hasattr(parent, 'pos_map') else []
             return (node.pos, siblings.index(node) if node in siblings else len(siblings))
@@ -400,7 +403,7 @@ class X12LoopDataNode(X12DataNode):
         if x12_seg_node is None:
             raise errors.X12PathError('The segment %s does not start loop %s' %
                                       (seg_data.__repr__(), x12_loop_node.id))
-        new_data_loop = self._add_loop_node(x12_loop_node)
+        new_data_loop = self._add_loop_node(x12_loop_node, same_pos_by_map=True)
         # Now, add the segment
         new_data_node = X12SegmentDataNode(
             x12_seg_node, seg_data, new_data_loop)
@@ -420,7 +423,7 @@ class X12LoopDataNode(X12DataNode):
             raise errors.X12PathError('The loop_data_node "%s" is not a child of "%s"' %
                                       (data_node.x12_map_node.id, self.x12_map_node.id))
         data_node.parent = self
-        child_idx = self._get_insert_idx(data_node.x12_map_node)
+        child_idx = self._get_insert_idx(data_node.x12_map_node, same_pos_by_map=data_node.type == 'loop')
         self.children.insert(child_idx, data_node)
 
     def delete_segment(self, seg_data):
@@ -468,7 +471,7 @@ class X12LoopDataNode(X12DataNode):
             return True
         return False
 
-    def _add_loop_node(self, x12_loop_node):
+    def _add_loop_node(self, x12_loop_node, same_pos_by_map=False):
         """
         Add a loop data node to the current tree
         @param x12_loop_node: X12 Loop node
@@ -478,7 +481,7 @@ class X12LoopDataNode(X12DataNode):
         """
         new_node = X12LoopDataNode(x12_loop_node, parent=self)
         # Iterate over data nodes
-        child_idx = self._get_insert_idx(x12_loop_node)
+        child_idx = self._get_insert_idx(x12_loop_node, same_pos_by_map)
         self.children.insert(child_idx, new_node)
         return new_node
 
